@@ -137,6 +137,35 @@ def frame_bucket(e):
     return '%s@%s' % (type(e).__name__, where)
 
 
+class _BudgetExceeded(BaseException):
+    pass
+
+
+class time_budget(object):
+    """Abandon a single retrieval after `seconds` (main thread of the worker process only)."""
+
+    def __init__(self, seconds):
+        self.seconds = seconds
+        self.armed = False
+
+    def __enter__(self):
+        import signal
+        import threading
+        if threading.current_thread() is threading.main_thread():
+            def onalarm(signum, frame):
+                raise _BudgetExceeded()
+            self.old = signal.signal(signal.SIGALRM, onalarm)
+            signal.setitimer(signal.ITIMER_REAL, self.seconds)
+            self.armed = True
+
+    def __exit__(self, *exc):
+        if self.armed:
+            import signal
+            signal.setitimer(signal.ITIMER_REAL, 0)
+            signal.signal(signal.SIGALRM, self.old)
+        return False
+
+
 def check_object(qual, obj, stats, case, dotted=False, src=None):
     from sigtools import signatures, specifiers
     UpgradedSignature = signatures.UpgradedSignature
@@ -152,7 +181,13 @@ def check_object(qual, obj, stats, case, dotted=False, src=None):
         results = {}
         for gname, getter in three_getters():
             try:
-                r = getter(obj)
+                with time_budget(30):
+                    r = getter(obj)
+            except _BudgetExceeded:
+                # a time budget is never a verdict: the case is counted as inconclusive and the run goes on
+                stats.cls('inconclusive/retrieval-exceeded-30s')
+                stats.notes.append('%s(%s) did not finish within 30 s (inconclusive)' % (gname, qual))
+                continue
             except Exception as e:
                 if ierr is None:
                     stats.fail('C07/raises-where-inspect-succeeds/%s' % ('RecursionError' if isinstance(e, RecursionError) else frame_bucket(e)), case,
